@@ -21,7 +21,7 @@ EFFECTS = {
     "json.dump": ("fs-write(file-arg)",), "pickle.loads": ("unpickle",), "pickle.load": ("unpickle",),
     "stdlib_list.in_stdlib": ("fs-read(package-data)",), "struct.pack": (), "marshal.dumps": (), "re.match": (),
     "pickletools.genops": ("read(arg)", "seek(arg)"), "io.BytesIO": (),
-    "importlib.import_module": ("import",), "os.system": ("spawn",), "subprocess.run": ("spawn",), "subprocess.Popen": ("spawn",),
+    "importlib.import_module": ("import",), "super": (), "noop": (), "os.system": ("spawn",), "subprocess.run": ("spawn",), "subprocess.Popen": ("spawn",),
 }
 
 
@@ -43,6 +43,35 @@ class ModelMixin:
         return m(args, kwargs, st, node)
 
     # ---- builtins -------------------------------------------------------------------------------------------------------
+    def bi_super(self, args, kw, st, node):
+        parts = self.cur_fn.split(".")
+        cls = ".".join(parts[:2])
+        return [(st, V("super", xs=(st.env.get("self") or st.env.get("cls"), cls)))]
+
+    def super_attr(self, v, name, st, node):
+        recv, cls = v.xs
+        dyn = recv.cls if recv is not None and recv.cls and self.repo.has_class(recv.cls) else cls
+        mro = self.repo.cls(cls)["mro"]
+        for k in mro[mro.index(cls) + 1:] if cls in mro else mro[1:]:
+            if self.repo.has_class(k):
+                a = self.repo.cls(k)["attrs"].get(name)
+                if a is not None and a.get("owner") == k:
+                    key = f"{k}.{name}"
+                    return V("superbound", xs=(recv, key))
+            else:
+                base = k.split(".", 1)[1] if k.startswith("builtins.") else k
+                if base == "object" and name in ("__init__", "__init_subclass__"):
+                    return V("builtin", cls="noop")
+                if base in PY_EXC and name == "__init__":
+                    return V("builtin", cls="noop")
+                ext = f"super:{k}.{name}"
+                if ext in self.ext_models:
+                    return V("superext", xs=(recv, ext))
+        raise Unsupported(f"{self.where(node)}: super().{name} not resolved from {cls}")
+
+    def bi_noop(self, args, kw, st, node):
+        return [(st, VNONE)]
+
     def bi_len(self, args, kw, st, node):
         v = args[0]
         if v.k in ("str", "bytes", "seq", "gen"):
@@ -254,6 +283,11 @@ class ModelMixin:
             return [(st, vref(r, cls="dict", elem=v.elem))]
         if v.k == "const" and isinstance(v.xs, dict):
             return [(st, self.const_to_heap(v.xs, st))]
+        if v.k == "ref" and v.cls == "defaultdict":
+            d = self.new_dict(st)
+            for c in ("dict.keys", "dict.map", "dict.has"):
+                st.H[c] = z3.Store(st.comp(c), d.t, fresh("ddcopy", st.comp(c).sort().range()))
+            return [(st, d)]
         raise Unsupported(f"{self.where(node)}: dict() of {v!r}")
 
     def bi_set(self, args, kw, st, node):
